@@ -86,10 +86,34 @@ func ParseKern(src []byte) (Kern, int, error) {
 			return Kern{}, 0, fmt.Errorf("reading Kern: "+"EOF: expected length: %d, got %d", nbRead, L)
 		}
 		src = src[nbRead:]
+
+		// restrict each subtable to its declared length, so that several subtables
+		// can not refer to (and copy) the same bytes; the length of the last one is not
+		// needed (and overflows its 16 bits in some fonts)
+		subtable := src
+		if i != len(out)-1 {
+			var length, headerSize int
+			if isOT {
+				headerSize = 6
+				if len(src) >= headerSize {
+					length = int(binary.BigEndian.Uint16(src[2:]))
+				}
+			} else {
+				headerSize = 8
+				if len(src) >= headerSize {
+					length = int(binary.BigEndian.Uint32(src))
+				}
+			}
+			if length < headerSize || len(src) < length {
+				return Kern{}, 0, fmt.Errorf("reading Kern: invalid subtable length %d", length)
+			}
+			subtable = src[:length]
+		}
+
 		if isOT {
-			out[i], nbRead, err = ParseOTKernSubtableHeader(src)
+			out[i], nbRead, err = ParseOTKernSubtableHeader(subtable)
 		} else {
-			out[i], nbRead, err = ParseAATKernSubtableHeader(src)
+			out[i], nbRead, err = ParseAATKernSubtableHeader(subtable)
 		}
 		if err != nil {
 			return Kern{}, 0, err
